@@ -19,7 +19,7 @@ from .grammar import Grammar, Terminal
 from .regexmodel import safety_class, Regex
 
 REC_BOUND = 1          # a recursive nonterminal is unrolled once (lists of 1 and 2 elements)
-MAX_WORLDS = 4000
+MAX_WORLDS = 20000
 MAX_DEPTH = 40
 
 
@@ -354,10 +354,36 @@ class Interp:
                 return bool(v.args[0])
             return self.choose(('truth-num', self._nid(node)), [True, False])
         if isinstance(v, MatchV):
+            if not self.match_possible(v):
+                return False
             return self.choose(('match', v.pattern, v.level), [True, False])
         if isinstance(v, Opaque):
             return self.choose(('truth-opaque', self._nid(node), v.why), [True, False])
         raise AnalysisError('T', f'truthiness of {type(v).__name__} not modelled')
+
+    def match_possible(self, m: 'MatchV') -> bool:
+        """cheap refutation: the pattern is anchored and starts with a literal character the subject cannot start with"""
+        import re as _re
+        mm = _re.match(r"\^(\\?)(.)", m.pattern)
+        if not mm:
+            return True
+        first = mm.group(2)
+        if mm.group(1) == '' and first in '.[(\\*+?{|^$':
+            return True
+        subj = m.subject
+        if isinstance(subj, Const) and isinstance(subj.value, str):
+            return subj.value[:1] == first
+        if isinstance(subj, Code) and subj.parts:
+            p0 = subj.parts[0]
+            if isinstance(p0, str) and p0:
+                return p0[0] == first
+            if isinstance(p0, Part) and p0.kind == 'num':
+                return first in '0123456789-+.ein'
+            if isinstance(p0, Part) and p0.kind == 'repr':
+                return first in '\'"'
+        if isinstance(subj, Const) and subj.value is None:
+            return False
+        return True
 
     def _nid(self, node):
         return (getattr(node, 'lineno', 0), getattr(node, 'col_offset', 0)) if node is not None else (0, 0)
@@ -721,6 +747,25 @@ class Interp:
         if sym is None:
             raise AnalysisError('T', f'unmodelled binary operator in {self.where()}')
         if isinstance(op, ast.Mod) and (isinstance(a, Code) or (isinstance(a, Const) and isinstance(a.value, str))):
+            fmt = a.value if isinstance(a, Const) else a.text_only()
+            vals = list(b.items) if isinstance(b, TupleV) else [b]
+            if isinstance(fmt, str):
+                import re as _re
+                pieces = _re.split(r'(%[srd%])', fmt)
+                if not _re.search(r'%[^srd%]', fmt) and sum(1 for x in pieces if x in ('%s', '%r', '%d')) == len(vals):
+                    parts, i = [], 0
+                    for x in pieces:
+                        if x == '%%':
+                            parts.append('%')
+                        elif x in ('%s', '%d'):
+                            parts.append(self.to_code(vals[i], node))
+                            i += 1
+                        elif x == '%r':
+                            parts.append(self.repr_of(vals[i], node))
+                            i += 1
+                        else:
+                            parts.append(x)
+                    return code_of(*parts)
             return code_of(Part('opaque', '%-format', node=node))
         return NumV('bin', (sym, self._num(a), self._num(b)))
 
@@ -1275,7 +1320,7 @@ class Interp:
                 r = range(*[a.value for a in args])
                 if len(r) <= 64:
                     return ListV(tuple(Const(i) for i in r))
-            return ListV((Opaque('range-element'),), filtered=True)
+            return ListV((NumV('range', tuple(self._num(a) for a in args)),), filtered=True)
         if name == 'bool':
             return Const(self.truth(a0, node))
         if name == 'type':
@@ -1376,6 +1421,39 @@ class Interp:
                     return Const(getattr(recv.value, name)(*[a.value for a in args]))
                 return Const(self.choose(('strpred', name, self._nid(node)), [True, False]))
             if name == 'format':
+                fmt = recv.value if isinstance(recv, Const) else (recv.text_only() if isinstance(recv, Code) else None)
+                if isinstance(fmt, str):
+                    import string as _string
+                    parts = []
+                    auto = 0
+                    try:
+                        fields = list(_string.Formatter().parse(fmt))
+                    except ValueError:
+                        raise SymRaise('ValueError', node, 'bad format string', where=self.where())
+                    for lit, fld, spec, conv in fields:
+                        if lit:
+                            parts.append(lit)
+                        if fld is None:
+                            continue
+                        if fld == '':
+                            idx, auto = auto, auto + 1
+                            val = args[idx] if idx < len(args) else None
+                        elif fld.isdigit():
+                            val = args[int(fld)] if int(fld) < len(args) else None
+                        elif fld.isidentifier():
+                            val = kwargs.get(fld)
+                        else:
+                            val = None
+                        if val is None:
+                            if fld and (fld.isidentifier() or fld.isdigit() or fld == ''):
+                                raise SymRaise('KeyError' if fld.isidentifier() else 'IndexError', node,
+                                               f'format field {fld!r} has no argument', where=self.where())
+                            parts.append(Part('opaque', 'format-field', node=node))
+                        elif spec:
+                            parts.append(Part('opaque', 'format-spec', node=node))
+                        else:
+                            parts.append(self.to_code(val, node, conv='r' if conv in ('r', 'a') else ''))
+                    return code_of(*parts)
                 return code_of(Part('opaque', 'str.format', node=node))
             if name in ('replace', 'split', 'splitlines', 'partition', 'zfill', 'ljust', 'rjust', 'encode'):
                 if isinstance(recv, Const) and all(isinstance(a, Const) for a in args):
@@ -1427,7 +1505,9 @@ class Interp:
                 self.effects.append(Effect('set_cell', {'cell': cell, 'code': c}, node))
                 return code_of(Part('cellref', cell, node=node))
             if name == 'get_cell':
-                return code_of(Part('cellref', args[0] if args else NONE, node=node))
+                if self.choose(('ctx-has-cell', self._nid(node)), [True, False]):
+                    return code_of(Part('cellref', args[0] if args else NONE, node=node))
+                return NONE
             self.effects.append(Effect('context-call', {'name': name}, node))
             return Opaque(f'context.{name}()')
         if kind == 'excel':
